@@ -1379,8 +1379,48 @@ def rule_exponent_narrowing(col, facts, which=("bellerophon", "binary")):
         for bb, sp, what in sites:
             n += 1
             lo = hi = False
-            for _d, e, p in path_conditions(f, bb):
+            from rules.core import enum_paths as _ep
+            # (dominating conditions first; if they do not show both bounds - a `match` with range patterns joins
+            #  several edges - every path to the site is read instead, and each must carry both)
+            cond_sets = [[(e, p) for _d, e, p in path_conditions(f, bb)]]
+            per_path = [list(atoms) for _t, atoms in _ep(f, 0, {bb})]
+            def bounds(atoms):
+                lo = hi = False
+                for e, p in atoms:
+                    e = strip_casts(e)
+                    if e[0] == "bin" and e[1] in ("Lt", "Le", "Gt", "Ge") and isinstance(p, bool) and strip_casts(e[2])[0] == "k" and is_exponent(e[3]):
+                        e = ("bin", {"Lt": "Gt", "Gt": "Lt", "Le": "Ge", "Ge": "Le"}[e[1]], e[3], e[2])
+                    if e[0] == "bin" and e[1] in ("Lt", "Le", "Gt", "Ge") and isinstance(p, bool) and is_exponent(e[2]) and strip_casts(e[3])[0] == "k":
+                        op = e[1] if p else {"Lt": "Ge", "Ge": "Lt", "Gt": "Le", "Le": "Gt"}[e[1]]
+                        k = strip_casts(e[3])[1]
+                        if op in ("Gt", "Ge") and -(1 << 28) <= k:
+                            lo = True
+                        if op in ("Lt", "Le") and k <= (1 << 28):
+                            hi = True
+                return lo, hi
+            lo, hi = bounds(cond_sets[0])
+            def feasible(atoms):
+                # `i64::MIN <= x` cannot be false and `x <= i64::MAX` cannot be false (range patterns spell them out)
+                for e, p in atoms:
+                    e = strip_casts(e)
+                    if e[0] == "bin" and e[1] in ("Le", "Ge") and isinstance(p, bool):
+                        l, r = strip_casts(e[2]), strip_casts(e[3])
+                        lo_first = e[1] == "Le"
+                        small, big = (l, r) if lo_first else (r, l)           # small <= big
+                        if small[0] == "k" and small[1] == -(1 << 63) and p is False:
+                            return False
+                        if big[0] == "k" and big[1] == (1 << 63) - 1 and p is False:
+                            return False
+                return True
+            per_path = [a for a in per_path if feasible(a)]
+            if not (lo and hi) and per_path:
+                bs = [bounds(a) for a in per_path]
+                lo, hi = all(b[0] for b in bs), all(b[1] for b in bs)
+            for _d, e, p in []:
                 e = strip_casts(e)
+                if e[0] == "bin" and e[1] in ("Lt", "Le", "Gt", "Ge") and isinstance(p, bool) and strip_casts(e[2])[0] == "k" and is_exponent(e[3]):
+                    # constant on the left (range patterns: `MIN..=-0x1000` lowers to `MIN <= x && x <= -0x1000`)
+                    e = ("bin", {"Lt": "Gt", "Gt": "Lt", "Le": "Ge", "Ge": "Le"}[e[1]], e[3], e[2])
                 if e[0] == "bin" and e[1] in ("Lt", "Le", "Gt", "Ge") and isinstance(p, bool) and is_exponent(e[2]) and strip_casts(e[3])[0] == "k":
                     op = e[1] if p else {"Lt": "Ge", "Ge": "Lt", "Gt": "Le", "Le": "Gt"}[e[1]]
                     k = strip_casts(e[3])[1]
